@@ -142,7 +142,8 @@ def run(tier, seed):
     rng = random.Random(seed)
     chk.rule = ("ThreadSanitizer build of the skeletons + generated code; N in {2,4,8,16} threads each run a deterministic script over their own "
                 "structures of shared type descriptors (BER decode, every encoder in shuffled order, asn_check_constraints, print, asn_GT2time/UT2time on "
-                "time types, decode of the library's own UPER/OER/XER output, compare, free), scripts rotated so that different (operation, type kind) "
+                "time types, decode of the library's own UPER/OER/XER output, compare, free; also on an information-object-set module and on the shipped X.509 and LDAP "
+                "specifications with their sample PDUs), scripts rotated so that different (operation, type kind) "
                 "pairs meet; all threads start behind a barrier and yield/sleep a seeded random while between calls; repeated with different seeds and "
                 "thread counts; oracle: (1) every thread's result log equals the log of the same script run alone, (2) no ThreadSanitizer report with a "
                 "library or generated-code frame; evidence: runs, calls, distinct overlapping (op, kind) pairs actually observed from per-call "
@@ -156,10 +157,28 @@ def run(tier, seed):
     allpairs = set()
     ncalls = 0
     nruns = 0
-    for mi in range(nmod + 1):
+    for mi in range(nmod + 3):
         ms = seed * 1000 + 1900 + mi
-        ioc = mi == nmod        # last round: a module with an information object set (generated type selectors, open types)
-        if ioc:
+        ioc = mi == nmod        # a module with an information object set (generated type selectors, open types)
+        real = {nmod + 1: "PKIX1", nmod + 2: "LDAP3"}.get(mi)    # the shipped X.509 / LDAP specifications, shipped sample PDUs
+        if real:
+            from .. import realpdu
+            b = realpdu.make(tc, real, variant="tsan", driver="tdriver", wrap_alloc=False)
+            a = realpdu.make(tc, real)
+            cases = []
+            kind_of = {}
+            for spec, pdu, syn, label, data in realpdu.samples(tc, [real]):
+                o = {}
+                if a.exe:
+                    r_ = drv.run_cases(a.exe, [drv.Case(1, ["dec s=0 t=%s syn=%s in=%s" % (pdu, syn, drv.hx(data))] + ["enc s=0 syn=%s" % s_ for s_ in DEC_BACK])]).get(1)
+                    if r_ is not None and r_.status == "ok" and len(r_.events) >= 1 + len(DEC_BACK):
+                        for i_, s_ in enumerate(DEC_BACK):
+                            out = r_.events[1 + i_].get("out")
+                            if out not in (None, "-", "trunc", "q") and r_.events[1 + i_].get("rc") not in ("-1", None) and len(out) < 80000:
+                                o[s_] = out
+                kind_of[pdu] = "real:" + pdu
+                cases += [(pdu, data, o)] * 4
+        elif ioc:
             d0 = build.scratch_dir("c19ioc")
             with open(os.path.join(d0, "IOT.asn1"), "w") as f:
                 f.write(IOC_MODULE)
@@ -179,9 +198,9 @@ def run(tier, seed):
         if b.exe is None:
             chk.inconcl("module not built (%s)" % b.error[0])
             continue
-        if not ioc:
+        if not ioc and not real:
             kind_of, cases = prepare_cases(tc, b, ms, prof, quick)
-        if len(cases) < 8:
+        if len(cases) < (8 if not real else 1):
             chk.inconcl("too few cases")
             continue
         d = build.scratch_dir("c19")
